@@ -80,7 +80,7 @@ def gen_scenario(rng, idx):
         f = rng.randrange(len(pipes))
         g = rng.choice(pipes[f][1])
         when = rng.choice(['before', 'half', 'finish'])
-        how = rng.choice(['exit1', 'exit1', 'segv', 'kill'])
+        how = rng.choice(['exit1', 'exit1', 'segv', 'kill', 'term', 'hup'])
         d = rng.choice([0, 0, 60, 120])
         beh['%s_%d' % (g, slot[f][g])] = '%s,%s,%d' % (when, how, d)
         what = 'input %d stage %s: %s %s after %d ms' % (f, g, when, how, d)
@@ -88,7 +88,7 @@ def gen_scenario(rng, idx):
             # a second failing stage in the same pipeline
             g2 = rng.choice(pipes[f][1])
             if g2 != g:
-                beh['%s_%d' % (g2, slot[f][g2])] = '%s,%s,%d' % (rng.choice(['before', 'half', 'finish']), rng.choice(['exit1', 'kill']),
+                beh['%s_%d' % (g2, slot[f][g2])] = '%s,%s,%d' % (rng.choice(['before', 'half', 'finish']), rng.choice(['exit1', 'kill', 'term']),
                                                              rng.choice([0, 60, 120]))
                 what += ' and stage %s' % g2
     elif kind == 'spawn':
@@ -101,7 +101,7 @@ def gen_scenario(rng, idx):
             nospawn = 'ld'
             what = 'linker cannot be executed'
         else:
-            beh['ld_0'] = '%s,%s,%d' % (rng.choice(['before', 'half', 'finish']), rng.choice(['exit1', 'segv', 'kill']), rng.choice([0, 50]))
+            beh['ld_0'] = '%s,%s,%d' % (rng.choice(['before', 'half', 'finish']), rng.choice(['exit1', 'segv', 'kill', 'term']), rng.choice([0, 50]))
             what = 'linker: ' + beh['ld_0']
     unknown_child = rng.random() < 0.12
     return dict(argv=argv, beh=beh, nospawn=nospawn, unknown_child=unknown_child, what=what, mode=mode, ninputs=n, kind=kind)
